@@ -244,13 +244,16 @@ def r4(ctx, cfg):
         for g0 in [f]:
             for b0, t0 in g0.calls():
                 if t0["callee"]["key"].endswith("Response::add_submessages"):
-                    cs = pipeline.iter_contribs(P, F, g0, P.call_args(g0, t0, b0)[1])
+                    it0 = P.call_args(g0, t0, b0)[1]
+                    while peel(it0)[0] == "call" and peel(it0)[1] in pipeline.COLLECT and peel(it0)[2]:
+                        it0 = peel(it0)[2][0]      # `let v: Vec<_> = iter.collect(); add_submessages(v)` hands over the same elements
+                    cs = pipeline.iter_contribs(P, F, g0, it0)
                     if len(cs) == 1 and cs[0].kind == "expr" and not cs[0].conds and not cs[0].adapters and is_param_field(cs[0].src, "resp", "messages"):
                         e0 = peel(cs[0].expr)
                         msgs = e0[0] == "call" and e0[1] == "contracts::customize_msg" and peel(e0[2][0])[0] == "bound"
                     elif len(cs) == 1 and cs[0].kind == "opaque":
                         # `.map(customize_msg)` with the function passed by path: not a closure the pipeline reader can open
-                        a1 = peel(P.call_args(g0, t0, b0)[1])
+                        a1 = peel(it0)
                         msgs = a1[0] == "call" and a1[1] == "std::iter::Iterator::map" and is_param_field(a1[2][0], "resp", "messages") and \
                             peel(a1[2][1]) == ("fn", "contracts::customize_msg")
                 elif t0["callee"]["key"].endswith("Response::add_submessage"):
